@@ -16,6 +16,7 @@ from fractions import Fraction
 from vlib.framework import Family, COQ, BUILD, NPROC
 from vlib import coqlit as L
 from vlib.exactq import ExactQ, to_frac
+from C13_kinds import KINDS, expected_ok, run_kind
 
 PID = "C13"
 PROP_FILES = ["Prop", "Prop2"]
@@ -273,10 +274,12 @@ def gen_contract(tier, rng):
     for sec in (0, 3):
       yield {"design": "gammatone.sampled", "kw": kw, "kbw": kbw, "sec": sec, "eta": 4, "kph": 0, "default": True,
              "tags": ["gammatone.sampled", "eta=default"]}
+  for c in gen_hist(tier, rng):
+    yield c
 
 
-def build_design(c):
-  """Calls the library; returns (filter object or section, container type name of the whole result)."""
+def _call_design(c):
+  """one call of the library with the parameters of the case; returns the whole result"""
   import audiolazy
   name = c["design"]
   w = grid_param(c["kw"])
@@ -284,25 +287,94 @@ def build_design(c):
   fam, strat = name.split(".")
   sd = getattr(audiolazy, fam)
   if fam in ("lowpass", "highpass"):
-    f = sd[strat](w)
-    return f, type(f).__name__
+    return sd[strat](w)
   if fam == "resonator":
-    f = sd[strat](w, bw)
-    return f, type(f).__name__
+    return sd[strat](w, bw)
   if strat == "sampled":
     if c.get("default"):
-      g = sd.sampled(w, bw)
-    else:
-      g = sd.sampled(w, bw, phase=grid_param(c["kph"]) if c["kph"] else 0, eta=c["eta"])
-    if len(g) != c["eta"]:
-      return g[0], "cascade-of-%d-sections-instead-of-%d" % (len(g), c["eta"])
-  else:
-    g = sd[strat](w, bw)
-    assert len(g) == 4
+      return sd.sampled(w, bw)
+    ph = grid_param(c["kph"]) if c["kph"] else (0.0 if c.get("phase_float") else 0)
+    return sd.sampled(w, bw, phase=ph, eta=c["eta"])
+  return sd[strat](w, bw)
+
+
+JUNK_GAIN = 3   # the foreign section used by the in-place mutations has gain 3 at every frequency
+
+
+def _mutate(g, how):
+  """edits a returned design in place, as a caller may (the next design must not be affected)"""
+  import audiolazy
+  junk = JUNK_GAIN * audiolazy.z ** -1
+  if isinstance(g, list):            # CascadeFilter
+    if how == "append":
+      g.append(junk)
+    elif how == "setitem":
+      g[0] = junk
+    elif how == "pop":
+      g.pop()
+    else:                            # "poly": coefficient containers of the sections
+      for f in g:
+        f.numpoly._data[0] = 99.0
+        f.denpoly._data[1] = 5.0
+  else:                              # ZFilter
+    g.numpoly._data[0] = 99.0
+    g.denpoly._data[1] = 5.0
+
+
+def build_design(c):
+  """Calls the library; returns (filter object or section, container type name of the whole result).
+  With c["hist"] = {"mut": m, "vary": v}: a first call (the same parameters, or exactly one of them varied)
+  whose result is mutated in place precedes the observed call: every call must equal the per-call model."""
+  h = c.get("hist")
+  if h:
+    c1 = dict(c)
+    if h["vary"] == "w": c1["kw"] = c["kw"] + 13 if c["kw"] < 3000 else c["kw"] - 13
+    elif h["vary"] == "bw": c1["kbw"] = c["kbw"] + 7 if c["kbw"] < 990 else c["kbw"] - 7
+    elif h["vary"] == "phase": c1["kph"] = c["kph"] + 500
+    elif h["vary"] == "eta": c1["eta"] = c["eta"] + 1
+    elif h["vary"] == "type": c1["phase_float"] = True       # phase 0.0 first, then 0 (== and same hash)
+    g1 = _call_design(c1)
+    _mutate(g1, h["mut"])
+  g = _call_design(c)
+  fam, strat = c["design"].split(".")
+  if fam != "gammatone":
+    return g, type(g).__name__
+  nsec = c["eta"] if strat == "sampled" else 4
   if type(g).__name__ != "CascadeFilter":
     return g[c["sec"]], "not-a-CascadeFilter:" + type(g).__name__
+  if len(g) != nsec:                 # wrong number of sections: the last one is observed
+    return g[-1], "cascade-of-%d-sections-instead-of-%d" % (len(g), nsec)
   sec = g[c["sec"]]
   return sec, type(sec).__name__
+
+
+def gen_hist(tier, rng):
+  """two-call histories in one process (classes a / b of the strengthening round)"""
+  reps = 1 if tier == "quick" else 6
+  for rep in range(reps):
+    for eta in (1, 2, 3, 4):
+      for mut in ("append", "setitem", "poly", "pop"):
+        if mut == "pop" and eta == 1:
+          continue
+        kw, kbw = rng.randrange(50, 3091), rng.randrange(20, 1001)
+        kph = rng.choice(SAMPLED_PHASES)
+        vary = rng.choice([None, None, "phase", "eta", "bw", "w"] + (["type"] if kph == 0 else []))
+        sec = 0 if mut != "pop" else eta - 1
+        yield {"design": "gammatone.sampled", "kw": kw, "kbw": kbw, "sec": sec, "eta": eta, "kph": kph,
+               "hist": {"mut": mut, "vary": vary}, "tags": ["history", "gammatone.sampled", "mut=" + mut, "vary=%s" % vary]}
+    for name in ("gammatone.slaney", "gammatone.klapuri"):
+      for mut in ("append", "setitem", "poly"):
+        kw, kbw = rng.randrange(50, 3091), rng.randrange(20, 500)
+        if near_zexp_boundary(kw, 2 * kbw):
+          continue
+        yield {"design": name, "kw": kw, "kbw": kbw, "sec": 0, "hist": {"mut": mut, "vary": rng.choice([None, "bw", "w"])},
+               "tags": ["history", name, "mut=" + mut]}
+    for name in sorted(LPHP) + sorted(RESON):
+      kw, kbw = rng.randrange(5, 3137), (rng.randrange(5, 1001) if name in RESON else 0)
+      if name in RESON and near_zexp_boundary(kw, kbw):
+        continue
+      yield {"design": name, "kw": kw, "kbw": kbw, "hist": {"mut": "poly", "vary": rng.choice([None, "w"])},
+             "tags": ["history", name, "mut=poly"]}
 
 
 def run_contract(c):
@@ -425,72 +497,51 @@ def known_poles(c, o):
 
 
 # ---------------------------------------------------------------------------- stream family
+STREAM_DESIGNS = [(d, [0]) for d in sorted(LPHP)] + \
+                 [(d, w) for d in sorted(RESON) + ["gammatone.klapuri"] for w in ([0], [1], [0, 1])] + \
+                 [("comb.fb", [0]), ("comb.ff", [0]), ("comb.tau", [0])]
+
+
+def _stream_params(design, rng, ln):
+  if design.startswith("comb."):
+    if design == "comb.tau":
+      return [[float(Fraction(rng.randrange(500, 40000), 1000)) for _ in range(ln)]]
+    return [[float(Fraction(rng.choice([-1, 1]) * rng.randrange(1, 1500), 1000)) for _ in range(ln)]]   # never 0: a zero term is dropped
+  ps = [[grid_param(rng.randrange(1, 3141)) for _ in range(ln)]]
+  if not design.startswith(("lowpass", "highpass")):
+    ps.append([grid_param(rng.randrange(1, 1001)) for _ in range(ln)])
+    if design == "gammatone.klapuri" or design.endswith(".z_exp"):
+      # keep clear of the z_exp boundary |cost| = 1 only matters for pole checks, not here
+      pass
+  return ps
+
+
 def gen_stream(tier, rng):
-  n = 40 if tier == "quick" else 500
-  names = sorted(LPHP) + sorted(RESON) + ["gammatone.klapuri"]
-  for i in range(n):
-    name = names[i % len(names)] if i < 3 * len(names) else rng.choice(names)
-    ln = rng.randrange(3, 7)
-    kws = [rng.randrange(1, 3141) for _ in range(ln)]
-    kbws = [rng.randrange(1, 1001) for _ in range(ln)]
-    if rng.random() < 0.2:
-      kws[rng.randrange(ln)] = rng.choice([1, 1571, 3140])
-    mode = "s" if name in LPHP else rng.choice(["ss", "sf", "fs"])
-    yield {"design": name, "kws": kws, "kbws": kbws, "mode": mode, "tags": [name, "mode=" + mode]}
-
-
-def _coef_rows(filters, n, streamed):
-  """[(sign, value)] rows: one row per coefficient position (num then den, by power) of each filter"""
-  import audiolazy
-  rows = []
-  for f in filters:
-    for d in (f.numdict, f.dendict):
-      for k in sorted(d):
-        v = d[k]
-        if isinstance(v, audiolazy.Stream):
-          vals = list(v.take(n)) if streamed else None
-          assert streamed, "constant design returned a Stream coefficient"
-        else:
-          vals = [v] * n
-        rows.append(((0 if d is f.numdict else 1, k), vals))
-  return rows
+  reps = 1 if tier == "quick" else 6
+  for rep in range(reps):
+    for design, which in STREAM_DESIGNS:
+      for kind in KINDS:
+        ln = rng.randrange(3, 6)
+        c = {"design": design, "which": which, "kind": kind, "mode": "single", "p": _stream_params(design, rng, ln),
+             "tags": [design, "kind=" + kind, "mode=single"]}
+        if design.startswith("comb."):
+          c["delay"] = rng.randrange(1, 6)
+        yield c
+      # two live results consumed alternately; one argument object given to two calls
+      for kind, mode in (("Stream", "interleave"), ("gen", "interleave"), ("list", "interleave"),
+                         ("list", "samearg"), ("tuple", "samearg"), ("deque", "samearg"), ("onlyiter", "samearg")):
+        if tier == "quick" and (len(design) + len(kind) + len(mode) + which[0]) % 2:
+          continue
+        ln = rng.randrange(3, 6)
+        c = {"design": design, "which": which, "kind": kind, "mode": mode, "p": _stream_params(design, rng, ln),
+             "tags": [design, "kind=" + kind, "mode=" + mode]}
+        if design.startswith("comb."):
+          c["delay"] = rng.randrange(1, 6)
+        yield c
 
 
 def run_stream(c):
-  import audiolazy
-  try:
-    fam, strat = c["design"].split(".")
-    sd = getattr(audiolazy, fam)[strat]
-    n = len(c["kws"])
-    ws = [grid_param(k) for k in c["kws"]]
-    bws = [grid_param(k) for k in c["kbws"]]
-    if c["mode"] == "s":
-      fs = sd(audiolazy.Stream(ws))
-      consts = [sd(w) for w in ws]
-    else:
-      a = audiolazy.Stream(ws) if c["mode"][0] == "s" else ws[0]
-      b = audiolazy.Stream(bws) if c["mode"][1] == "s" else bws[0]
-      fs = sd(a, b)
-      consts = [sd(ws[i] if c["mode"][0] == "s" else ws[0], bws[i] if c["mode"][1] == "s" else bws[0]) for i in range(n)]
-    secs = list(fs) if fam == "gammatone" else [fs]
-    srows = _coef_rows(secs, n, True)
-    out_s, out_c = [], []
-    for (pos, vals) in srows:
-      out_s.append([pos, [hx(float(v)) if isinstance(v, float) else hx(v) for v in vals]])
-    pos_index = {}
-    for i in range(n):
-      csecs = list(consts[i]) if fam == "gammatone" else [consts[i]]
-      j = 0
-      for f in csecs:
-        for d in (f.numdict, f.dendict):
-          for k in sorted(d):
-            pos_index.setdefault(j, [(0 if d is f.numdict else 1, k), []])[1].append(hx(d[k]))
-            j += 1
-    for j in sorted(pos_index):
-      out_c.append(pos_index[j])
-    return {"stream": out_s, "const": out_c}
-  except Exception as e:
-    return {"raise": type(e).__name__, "msg": str(e)[:100]}
+  return run_kind(c)
 
 
 def _fl(h):
@@ -503,21 +554,26 @@ def _fl(h):
   return "(%s, %s)" % (L.boolean(sign), qh([f.numerator, f.denominator]))
 
 
+def stream_unsupported(c, o):
+  """a raw container kind on which the unchanged library raises TypeError (`-x`, `x - pi` on a list ...)"""
+  return o.get("raise") == "TypeError" and not expected_ok(c["design"], c["which"], c["kind"])
+
+
 def lit_stream(c, o):
-  n = len(c["kws"])
+  n = len(c["p"][c["which"][0]])
+  if stream_unsupported(c, o):
+    return "(SC 0%nat [] [])"                      # outside the property text: nothing demanded
   if "raise" in o:
-    return "(SC %s [[]] [])" % L.nat(n)
+    return "(SC %s [[]] [])" % L.nat(n)            # a supported kind raised: both checkers fail
   def row(r):
     return L.lst([_fl(v) for v in r[1]])
-  def poscheck(rs):
-    return [tuple(r[0]) for r in rs]
-  if poscheck(o["stream"]) != poscheck(o["const"]):
-    return "(SC %s [[]] [])" % L.nat(n)   # different coefficient positions: corr fails
+  if [tuple(r[0]) for r in o["stream"]] != [tuple(r[0]) for r in o["const"]]:
+    return "(SC %s [[]] [])" % L.nat(n)            # different coefficient positions
   return "(SC %s %s %s)" % (L.nat(n), L.lst([row(r) for r in o["stream"]]), L.lst([row(r) for r in o["const"]]))
 
 
 def nontrivial_stream(c, o):
-  return "raise" not in o and len(set(c["kws"])) >= 3
+  return "raise" not in o and len(set(c["p"][c["which"][0]])) >= 3
 
 
 # ---------------------------------------------------------------------------- erb family
@@ -634,7 +690,9 @@ def make_goals(tier, rng):
           continue   # exactly 1: checked by corr_contract
         if sampled0 and which == "fnum" and tier == "quick" and not (c["eta"] <= 3 and c["kw"] == 785) and k not in (1, ln - 1):
           continue   # seconds per goal: quick keeps all coefficients for eta <= 3 at one point, else two per case
-        if sampled0 and which == "fnum" and tier == "quick" and c["eta"] >= 5 and c["kw"] not in (785, 50):
+        if sampled0 and which == "fnum" and tier == "quick" and c.get("hist") and k != ln - 1:
+          continue   # history cases: one numerator coefficient in quick
+        if sampled0 and which == "fnum" and tier == "quick" and c["eta"] >= 5 and c["kw"] != 785:
           continue   # eta = 5, 6 (about 10 s per goal): two points in quick
         if sampled0 and which == "fnum" and tier != "quick" and c["eta"] >= 4 and c["kw"] != 785 \
            and k not in (1, ln // 2, ln - 1):
@@ -737,7 +795,7 @@ def run_goal_files(chk, goals):
 
 def extra(chk, tier, rng):
   goals = make_goals(tier, rng) + make_misc_goals(tier, rng)
-  limit = 450 if tier == "quick" else 3600
+  limit = 400 if tier == "quick" else 3600
   if len(goals) > limit:
     # keep every 'holds' goal, thin out the coefficient goals deterministically
     holds = [g for g in goals if g[0] == "holds"]
